@@ -70,13 +70,25 @@ def deviation_runs(report, module, cfg_text_for, devs, *, workers=2, timeout=600
         shutil.rmtree(tmp, ignore_errors=True)
 
 
+def _safe(packed):
+    """Exceptions raised in a pool process may hold unpicklable objects (modules, locks): send their text instead."""
+    fn, job = packed
+    try:
+        return fn(job)
+    except tla.MachineryError:
+        raise
+    except Exception:  # noqa: BLE001
+        import traceback
+        raise tla.MachineryError("driver raised in a pool process:\n" + traceback.format_exc()[-3000:]) from None
+
+
 def pmap(fn, jobs_list, procs=None):
     procs = procs or common.jobs()
     if len(jobs_list) <= 1 or procs == 1:
         return [fn(j) for j in jobs_list]
     ctx = mp.get_context("fork")
     with ctx.Pool(min(procs, len(jobs_list))) as pool:
-        return pool.map(fn, jobs_list, chunksize=1)
+        return pool.map(_safe, [(fn, j) for j in jobs_list], chunksize=1)
 
 
 # ----------------------------------------------------------------------------- drive + judge inside the worker processes
@@ -145,7 +157,33 @@ def run_judged(fn, jobs_list, module, *, replay_fn, key_fn, nontrivial_fn=lambda
             if len(merged) > 3000000:          # give up merging, count what we have and continue additively
                 out["distinct"] += len(merged)
                 merged, disjoint = set(), True
-        if len(out["samples"]) < 4:
-            out["samples"] += r["samples"][:1]
+        if len(out["samples"]) < 24:
+            out["samples"] += r["samples"][:2]
     out["distinct"] += len(merged)
     return out
+
+
+# ----------------------------------------------------------------------------- binding canaries
+
+def canaries(report, module, events, corrupt, *, env=None, want=12, label=None):
+    """Binding demonstration run with every check: take real recorded events, corrupt ONE recorded field of each (corrupt(e) -> list of
+    (what, corrupted copy)), and require the judge to reject every corrupted event.  A judge that accepts one is not constraining that field:
+    machinery error, never a verdict.  Returns the number of corrupted events rejected."""
+    import copy as _copy
+    bad_events, whats = [], []
+    for e in events:
+        for what, c in corrupt(_copy.deepcopy(e)):
+            bad_events.append(c)
+            whats.append(what)
+        if len(bad_events) >= want:
+            break
+    if not bad_events:
+        raise tla.MachineryError(f"no canary could be derived from the sample events of {module}")
+    res = tla.judge(module, bad_events, jobs=1, env=env)
+    flagged = {gi for gi, _, _ in res["bad"]}
+    accepted = [whats[i] for i in range(len(bad_events)) if i not in flagged]
+    if accepted:
+        raise tla.MachineryError(f"judge {module} accepted corrupted events ({accepted[:4]}): the field is not bound to the specification")
+    kinds = sorted(set(whats))
+    report.coverage.setdefault("binding_canaries", {})[label or module] = {"corrupted_events_rejected": len(bad_events), "fields": kinds}
+    return len(bad_events)
